@@ -30,7 +30,8 @@ class View:
     """what is observed when two paths are compared"""
 
     def __init__(self, ignore_calls=(), ignore_targets=(), observe_only=None, ignore_exit_value=False,
-                 integer_dims=(), unordered_calls=(), ignore_asserts=True, rename=None):
+                 integer_dims=(), unordered_calls=(), ignore_asserts=True, rename=None, only_calls=None):
+        self.only_calls = tuple(only_calls) if only_calls is not None else None
         self.ignore_calls = tuple(ignore_calls)
         self.ignore_targets = tuple(ignore_targets)
         self.observe_only = tuple(observe_only) if observe_only else None
@@ -58,6 +59,8 @@ class View:
             return False
         if self._match(callee, self.ignore_calls) or short in self.ignore_calls:
             return False
+        if self.only_calls is not None:
+            return self._match(callee, self.only_calls) or short in self.only_calls
         return True
 
     def keep_target(self, target: str) -> bool:
